@@ -169,10 +169,11 @@ class Explorer(object):
     """
 
     def __init__(self, cfg, on_node=None, init_data=None, edge_ok=None, max_states=200000,
-                 heap_facts=True):
+                 heap_facts=True, edge_filter=None):
         self.cfg = cfg
         self.on_node = on_node
         self.edge_ok = edge_ok
+        self.edge_filter = edge_filter      # (source node id, target node id, label) -> follow the edge?
         self.max_states = max_states
         self.heap_facts = heap_facts
         self.parent = {}
@@ -234,6 +235,8 @@ class Explorer(object):
                 continue
             for (b, label) in cfg.succ[nid]:
                 if self.edge_ok is not None and not self.edge_ok(label):
+                    continue
+                if self.edge_filter is not None and not self.edge_filter(nid, b, label):
                     continue
                 for (f2, d2) in self._apply(cfg.nodes[b], facts, data):
                     st2 = (b, f2, d2)
